@@ -84,7 +84,18 @@ class Prover:
             s.add(*pc)
             s.add(z3.Not(goal))
             t0 = time.time()
+            # staged: a short attempt, then the (cheap) abstraction, then the full budget
+            s.set("timeout", min(2000, self.timeout_ms))
             r = s.check()
+            s.set("timeout", self.timeout_ms)
+            if r == z3.unknown:
+                try:
+                    from . import abstraction
+                    if abstraction.prove_abstract(list(s.assertions()), self.timeout_ms) == "unsat":
+                        return "proved", "z3-euf(seq abstracted)", time.time() - t0, None
+                except z3.Z3Exception:
+                    pass
+                r = s.check()
             dt = time.time() - t0
             if r == z3.unsat:
                 return "proved", "z3", dt, None
